@@ -777,6 +777,9 @@ func (tc *typechecker) typeof(expr ast.Expression, typeExpected bool) *typeInfo 
 		if t.Type.Kind() != reflect.Interface {
 			panic(tc.errorf(expr, "invalid type assertion: %v (non-interface type %s on left)", expr, t))
 		}
+		if expr.Type == nil { // switch x.(type) == nil {
+			panic(tc.errorf(expr, "use of .(type) outside type switch"))
+		}
 		typ := tc.checkType(expr.Type)
 		if typ.Type.Kind() != reflect.Interface && !types.Implements(typ.Type, t.Type) {
 			panic(tc.errorf(expr, "%s", tc.errTypeAssertion(typ.Type, t.Type)))
